@@ -22,7 +22,7 @@ pub fn scenario(tier: &str) -> EpochScn {
 pub fn run(tier: &str, seed: u64) -> i32 {
     let mut ev = Evidence::new("C20", tier, seed);
     ev.assumptions = vec![
-        "block time is an explicit environment action with targets {genesis-1ns, genesis, boundary-1ns, boundary, boundary+1ns, boundary+2.5 durations}; time never goes backwards".into(),
+        "block time is an explicit environment action with targets {genesis-duration-1ns, genesis-duration, genesis-1ns, genesis, boundary-1ns, boundary, boundary+1ns, boundary+2.5 durations}; time never goes backwards".into(),
         "a native panic inside the contract (Timestamp underflow before genesis) is a reverted transaction".into(),
         "distributor world: empty pool and vault factories, so NewEpoch forwards no fees (the pipeline itself is C10)".into(),
     ];
